@@ -25,6 +25,6 @@ CONSTANTS
   Limits <- L1Limits
   Orig <- NNone
 VIEW nview
-INVARIANTS NodeTypeOK Purged Purged2 CachesOK GhostAgrees ObsLawsHold DumpEvery
+INVARIANTS NodeTypeOK CachesOK GhostAgrees ObsLawsHold DumpEvery
 PROPERTIES NodeStepLawsProp
 CHECK_DEADLOCK FALSE
